@@ -35,8 +35,22 @@ class SrcInfo:
                 raw = open(p, errors='replace').read()
                 self.lines[os.path.relpath(p, root)] = raw.split('\n')
                 txt = _strip_comments(raw)
-                for m in re.finditer(r'\bstruct (\w+)(?:<[^>{(;]*>)?\s*(?:where[^{]*)?\{', txt):
-                    body = _body_at(txt, m.end())
+                for m in re.finditer(r'\bstruct (\w+)', txt):
+                    i = m.end()
+                    while i < len(txt) and txt[i].isspace(): i += 1
+                    if i < len(txt) and txt[i] == '<':
+                        depth = 0
+                        while i < len(txt):
+                            if txt[i] == '<': depth += 1
+                            elif txt[i] == '>' and txt[i - 1] != '-':
+                                depth -= 1
+                                if depth == 0: i += 1; break
+                            i += 1
+                    j = i
+                    while j < len(txt) and txt[j] not in '{(;': j += 1
+                    if j >= len(txt) or txt[j] != '{': continue
+                    if '=' in txt[i:j] and 'where' not in txt[i:j]: continue
+                    body = _body_at(txt, j + 1)
                     body = re.sub(r'#\[[^\]]*\]', '', body)
                     names = []
                     for part in scan_split(body):
@@ -67,11 +81,12 @@ class SrcInfo:
         if col is not None:
             at = first[col - 1:]
             if not (at.startswith('impl') or at.startswith('unsafe impl')): return None
-            hdr = ' '.join([at] + lines[line:line + 5])
+            hdr = ' '.join([at] + lines[line:line + 40])
         else:
-            hdr = ' '.join(lines[line - 1:line + 5])
+            hdr = ' '.join(lines[line - 1:line + 40])
         hdr = hdr[hdr.find('impl'):]
-        m = re.match(r'impl\s*(<(?:[^<>]|<[^<>]*>)*>)?\s*(.*?)\s*(?:where\b.*)?\{', hdr)
+        hdr = hdr[:hdr.find('{') + 1] if '{' in hdr else hdr
+        m = re.match(r'impl\s*(<(?:[^<>]|<(?:[^<>]|<[^<>]*>)*>)*>)?\s*(.*?)\s*(?:\bwhere\b.*)?\{', hdr)
         if not m: return None
         body = m.group(2)
         trait = None; targs = ''
